@@ -31,7 +31,7 @@ type c11Case struct {
 func c11Gen(rng *rand.Rand, i int) c11Case {
 	return c11Case{callmix.ConcConfig{
 		Seed: rng.Int63n(1 << 40), G: []int{2, 4, 8}[i%3], K: 30 + rng.Intn(30),
-		Procs: []int{1, 2, 4, 8}[rng.Intn(4)], Yield: rng.Intn(2) == 0, TimeoutMs: 200,
+		Procs: []int{1, 2, 4, 8}[rng.Intn(4)], Yield: rng.Intn(2) == 0, TimeoutMs: 200, FailBias: i%4 == 1,
 	}}
 }
 
@@ -219,7 +219,7 @@ func c11CheckRace(bin string) func(c *core.Ctx, cases []c11Case) []core.Outcome 
 func init() {
 	core.Register("C11", func(c *core.Ctx) {
 		regexp2.SetTimeoutCheckPeriod(callmix.ClockPeriod)
-		rule := "one case = one concurrent run: G in {2,4,8} goroutines x K in 30..59 calls drawn from the C12 call mix (11 entry points, 18 Regexps incl. balancing, bool-only-eligible, stack-limited, timed (200ms), RTL; 43 replacements; inputs around the 1K/4K/16K pool classes), 2/3 of the calls on Regexps shared by all goroutines, 1/3 on goroutine-private Regexps that share only the global pools and the clock; GOMAXPROCS in {1,2,4,8}; runtime.Gosched() before a third of the calls in half of the runs; oracle: every call's canonical result equals the precomputed result of the same call alone (isolated Regexp), and the shared Regexps' pooled runners satisfy the reset invariant afterwards. Non-trivial = at least 2 goroutines with at least 2 calls"
+		rule := "one case = one concurrent run: G in {2,4,8} goroutines x K in 30..59 calls drawn from the C12 call mix (11 entry points, 18 Regexps incl. balancing, bool-only-eligible, stack-limited, timed (200ms), RTL; 43 replacements; inputs around the 1K/4K/16K pool classes), 2/3 of the calls on Regexps shared by all goroutines, 1/3 on goroutine-private Regexps that share only the global pools and the clock; GOMAXPROCS in {1,2,4,8}; every 4th run interleaves Replace calls that fail in their first scan (stack limit) with calls on same-size-class inputs that differ per goroutine; runtime.Gosched() before a third of the calls in half of the runs; oracle: every call's canonical result equals the precomputed result of the same call alone (isolated Regexp), and the shared Regexps' pooled runners satisfy the reset invariant afterwards. Non-trivial = at least 2 goroutines with at least 2 calls"
 		core.RunLeg(c, core.Leg[c11Case]{
 			Name: "S", Kind: "oracle", Rule: rule + " — in-process, no race detector",
 			N: c.N(12, 400), Gen: c11Gen, Check: c11CheckInProcess, Batch: 12,
